@@ -27,7 +27,8 @@ bool less_icase(const char* a, const char* b)
     if (*b == 0)
         return false;
 
-    return to_lower(*a) < to_lower(*b);
+    return static_cast<unsigned char>(to_lower(*a)) <
+           static_cast<unsigned char>(to_lower(*b));
 }
 
 bool less_icase(const char* a, tlx::string_view b)
@@ -44,7 +45,8 @@ bool less_icase(const char* a, tlx::string_view b)
     if (bi == b.end())
         return false;
 
-    return to_lower(*a) < to_lower(*bi);
+    return static_cast<unsigned char>(to_lower(*a)) <
+           static_cast<unsigned char>(to_lower(*bi));
 }
 
 bool less_icase(tlx::string_view a, const char* b)
@@ -61,14 +63,18 @@ bool less_icase(tlx::string_view a, const char* b)
     if (*b == 0)
         return false;
 
-    return to_lower(*ai) < to_lower(*b);
+    return static_cast<unsigned char>(to_lower(*ai)) <
+           static_cast<unsigned char>(to_lower(*b));
 }
 
 bool less_icase(tlx::string_view a, tlx::string_view b)
 {
     return std::lexicographical_compare(
         a.begin(), a.end(), b.begin(), b.end(),
-        [](char c1, char c2) { return to_lower(c1) < to_lower(c2); });
+        [](char c1, char c2) {
+            return static_cast<unsigned char>(to_lower(c1)) <
+                   static_cast<unsigned char>(to_lower(c2));
+        });
 }
 
 } // namespace tlx
